@@ -17,11 +17,14 @@ class ReplayDivergence(HarnessError):
 
 
 class Chooser:
-    def __init__(self, prefix=()):
+    def __init__(self, prefix=(), labels=None):
         self.prefix = tuple(prefix)
+        self.labels = tuple(labels) if labels is not None else None
         self.trace: list[tuple[str, int, int]] = []
+        self.free: list[bool] = []
 
-    def choose(self, label: str, n: int) -> int:
+    def choose(self, label: str, n: int, free: bool = False) -> int:
+        """``free`` choices (e.g. who runs next after a thread finished) do not count as deviations."""
         if n <= 0:
             raise HarnessError(f"choice point {label!r} offers no alternative")
         i = len(self.trace)
@@ -29,7 +32,11 @@ class Chooser:
         if c >= n:
             raise ReplayDivergence(
                 f"answer {c} out of range at choice point {i} ({label!r}, n={n}) while replaying {self.prefix}")
+        if self.labels is not None and i < len(self.labels) and self.labels[i] != label:
+            raise ReplayDivergence(
+                f"choice point {i} was {self.labels[i]!r} when recorded, is {label!r} on replay")
         self.trace.append((label, n, c))
+        self.free.append(free)
         return c
 
     @property
@@ -38,7 +45,7 @@ class Chooser:
 
     @property
     def deviations(self) -> int:
-        return sum(1 for _, _, c in self.trace if c)
+        return sum(1 for (_, _, c), f in zip(self.trace, self.free) if c and not f)
 
 
 def all_alternatives(label: str, n: int):
@@ -55,15 +62,16 @@ def reduced_alternatives(limit: int = 64):
 
 
 def explore(run, bound: int, alternatives=all_alternatives, max_runs: int | None = None,
-            horizon: int | None = None):
-    """Yield (chooser, observation) for every execution with <= ``bound`` non-default answers
-    (placed among the first ``horizon`` choice points if a horizon is given - needed where a
-    retry loop repeats the same choice points up to 100 times)."""
-    stack = [()]
+            horizon: int | None = None, check_labels: bool = False):
+    """Yield (chooser, observation) for every execution with <= ``bound`` non-default answers at
+    non-free choice points (placed among the first ``horizon`` choice points if a horizon is given
+    - needed where a retry loop repeats the same choice points up to 100 times).  With
+    ``check_labels`` the labels recorded for a prefix must re-appear identically on replay."""
+    stack = [((), None, 0)]
     runs = 0
     while stack:
-        prefix = stack.pop()
-        ch = Chooser(prefix)
+        prefix, labels, dev = stack.pop()
+        ch = Chooser(prefix, labels if check_labels else None)
         obs = run(ch)
         if ch.answers[:len(prefix)] != prefix:
             raise ReplayDivergence(f"prefix {prefix} replayed as {ch.answers[:len(prefix)]}")
@@ -71,15 +79,16 @@ def explore(run, bound: int, alternatives=all_alternatives, max_runs: int | None
         yield ch, obs
         if max_runs is not None and runs >= max_runs:
             return
-        dev = sum(1 for c in prefix if c)
-        if dev >= bound:
-            continue
         answers = ch.answers
+        labs = tuple(t[0] for t in ch.trace)
         last = len(ch.trace) if horizon is None else min(len(ch.trace), horizon)
         for i in range(len(prefix), last):
             label, n, _ = ch.trace[i]
+            cost = 0 if ch.free[i] else 1
+            if dev + cost > bound:
+                continue
             for alt in alternatives(label, n):
-                stack.append(answers[:i] + (alt,))
+                stack.append((answers[:i] + (alt,), labs[:i + 1], dev + cost))
 
 
 class ScriptedRandom(random.Random):
